@@ -23,6 +23,8 @@ func TestMain(m *testing.M) {
 		os.Exit(m.Run())
 	case "jail":
 		os.Exit(jailMain())
+	case "recvproc":
+		os.Exit(recvProcMain())
 	default:
 		fmt.Fprintln(os.Stderr, "unknown helper role")
 		os.Exit(3)
